@@ -31,6 +31,7 @@ type CallInfo struct {
 	Canceled bool
 	Init     bool // an Init request was pushed
 	Order    int
+	Gen      int // number of completed quiescent waits when the call was started
 	// responses the server sent on this call, in order
 	Resp []string
 	// requests pushed by the client
@@ -57,6 +58,7 @@ type World struct {
 	Names map[string]string // peer id string -> peer name
 	Call  map[string]*CallInfo
 	order int
+	qgen  int
 	Subs  []*Sub
 	seq   map[string]uint64
 	Verd  []string
@@ -170,6 +172,8 @@ func lastEpoch(ci *CallInfo) (uint64, bool) {
 //	attach:<call>:<from>:<to>   open a Session call and send Init
 //	noinit:<call>:<from>:<to>   open a Session call whose first request is a Send
 //	listen:<call>:<who>         open a Listen call
+//	attachs: / listens:         the same, but the client does not drain its responses (the server's Send blocks) until resume
+//	resume:<call>               the client of a stalled call starts draining
 //	cancel:<call>               cancel the call's context
 //	wait                        block until no other thread can run
 //	send:<call>:<id>            submit payload <id> signed by the caller with the last announced epoch (skipped if none)
@@ -177,32 +181,53 @@ func lastEpoch(ci *CallInfo) (uint64, bool) {
 //	sendas:<call>:<id>:<peer>   submit a message signed by another peer's key (last announced epoch)
 //	sendbad:<call>:<id>         submit a message whose body was altered after signing
 //	sendclaim:<call>:<id>:<peer> signed by the caller's key but claiming <peer> as sender
+//	send=: sendas=: sendbad=: sendclaim=:  the same, re-using the message seqno of the call's previous submission
 //	ack:<call>:<n>  clear:<call>:<n>   ack / clear message seqno n (n = "last": last RecvMsg seen) with the last announced epoch
 //	acke:<call>:<n>:<epoch>  cleare:<call>:<n>:<epoch>
 func (w *World) Do(action string) {
 	f := strings.Split(action, ":")
+	// a trailing "=" on a send action re-uses the message seqno of the call's
+	// previous submission (message seqnos are chosen by the client)
+	sameSeq := false
+	if strings.HasSuffix(f[0], "=") {
+		f[0], sameSeq = strings.TrimSuffix(f[0], "="), true
+	}
 	switch f[0] {
-	case "attach", "noinit":
-		ci := &CallInfo{Name: f[1], Kind: "session", From: f[2], To: f[3], Order: w.order}
+	case "attach", "noinit", "attachs":
+		ci := &CallInfo{Name: f[1], Kind: "session", From: f[2], To: f[3], Order: w.order, Gen: w.qgen}
 		w.order++
 		ci.D = sigfake.NewDuplex(context.Background(), ci.Name, w.IDs[ci.From], w.tap)
+		if f[0] == "attachs" {
+			ci.D.StallFromStart()
+		}
 		w.Call[ci.Name] = ci
-		if f[0] == "attach" {
+		if f[0] != "noinit" {
 			ci.Init = true
 			_ = ci.D.ToSrv.Push(&signaling.SessionRequest{Body: &signaling.SessionRequest_Init{Init: &signaling.SessionInit{PeerId: w.IDs[ci.To]}}})
 		} else {
 			w.submit(ci, "x0", ci.From, true, ci.From, 0)
 		}
 		w.Calls.RunSession(w.Srv, ci.D, nil)
-	case "listen":
-		ci := &CallInfo{Name: f[1], Kind: "listen", From: f[2], Order: w.order}
+	case "listen", "listens":
+		ci := &CallInfo{Name: f[1], Kind: "listen", From: f[2], Order: w.order, Gen: w.qgen}
 		w.order++
 		ci.D = sigfake.NewDuplex(context.Background(), ci.Name, w.IDs[ci.From], w.tap)
+		if f[0] == "listens" {
+			ci.D.StallFromStart()
+		}
 		w.Call[ci.Name] = ci
 		w.Calls.RunListen(w.Srv, ci.D, nil)
 	case "wait":
 		// let everything else run as far as it can (lowest-priority step)
 		vsync.Quiesce()
+		// qgen changes only here, in the same step as the return from a quiescent
+		// wait (no other thread was enabled); starts read it without ordering
+		w.qgen++
+	case "resume":
+		if ci := w.Call[f[1]]; ci != nil {
+			vsync.Logf("resume %s", ci.Name)
+			ci.D.Resume()
+		}
 	case "cancel":
 		ci := w.Call[f[1]]
 		if ci != nil {
@@ -233,6 +258,9 @@ func (w *World) Do(action string) {
 		if !ok {
 			vsync.Logf("skip %s (no epoch announced)", action)
 			return
+		}
+		if sameSeq && w.seq[ci.Name] > 0 {
+			w.seq[ci.Name]--
 		}
 		w.submit(ci, f[2], signer, valid, claim, e)
 	case "ack", "clear", "acke", "cleare":
